@@ -56,8 +56,10 @@ def run(module_dir, module, cfg=None, workers=8, timeout=3600, simulate=None, de
     """returns dict(out=str, rc=int, generated=int, distinct=int, violated=[names], wall=float)"""
     meta = os.path.join(module_dir, "meta_" + module)
     shutil.rmtree(meta, ignore_errors=True)
-    jopts = ["-XX:+UseParallelGC", "-XX:ParallelGCThreads=4", "-Xss16m", "-Xmx6g",
-             "-DTLA-Library=" + SPEC]
+    if workers == 1:
+        jopts = ["-XX:+UseSerialGC", "-XX:TieredStopAtLevel=1", "-Xss16m", "-Xmx2g", "-DTLA-Library=" + SPEC]
+    else:
+        jopts = ["-XX:+UseParallelGC", "-XX:ParallelGCThreads=4", "-Xss16m", "-Xmx6g", "-DTLA-Library=" + SPEC]
     if dfs:
         jopts.append("-Dtlc2.tool.queue.IStateQueue=StateDeque")
     cmd = ["java"] + jopts + ["-cp", JAR + ":" + DEPS, "tlc2.TLC", "-workers", str(workers),
